@@ -155,7 +155,8 @@ func runWatched(cmd *exec.Cmd, marker string) (out []byte, killed string, err er
 				}
 			}
 			if b, e := os.ReadFile(marker); e == nil {
-				if m := string(b[:min(len(b), 64)]); m != lastMark {
+				// the whole marker: consecutive cases differ only near its end (mutants of one base document, the index)
+				if m := string(b); m != lastMark {
 					lastMark, lastChange = m, time.Now()
 				}
 			}
